@@ -25,7 +25,12 @@ const (
 	VerifRoot = "/verif"
 	RepoRoot  = "/repo"
 	goBinDir  = "/root/go/pkg/mod/golang.org/toolchain@v0.0.1-go1.25.5.linux-amd64/bin"
+	// GoBin is the go command of the toolchain the repository's own suite runs with.
+	GoBin = goBinDir + "/go"
 )
+
+// MachHash is set at link time (scripts/build.sh).
+var MachHash string
 
 type Env struct {
 	Hash    string
@@ -103,7 +108,7 @@ func hashTree(h hash.Hash, root string, want func(rel string, d fs.DirEntry) boo
 }
 
 // TreeHash hashes /repo's sources (everything that can influence the built CLI or the examples) and
-// verif's own Go sources.
+// verif's own machinery (the running binary).
 func TreeHash() string {
 	h := sha256.New()
 	hashTree(h, RepoDir(), func(rel string, d fs.DirEntry) bool {
@@ -116,17 +121,16 @@ func TreeHash() string {
 		}
 		return strings.Contains(rel, "/skills/")
 	})
-	hashTree(h, VerifRoot, func(rel string, d fs.DirEntry) bool {
-		if !strings.HasSuffix(rel, ".go") || strings.HasSuffix(rel, "_test.go") {
-			return false
+	// verif's own machinery: MachHash is the hash of the corpus-relevant sources, stamped into the
+	// binary by scripts/build.sh; without it, the running binary itself is hashed.
+	if MachHash != "" {
+		h.Write([]byte(MachHash))
+	} else if exe, err := os.Executable(); err == nil {
+		if b, err := os.ReadFile(exe); err == nil {
+			sum := sha256.Sum256(b)
+			h.Write(sum[:])
 		}
-		for _, d := range []string{"internal/decl/", "internal/rewrite/", "internal/pipe/", "sched/", "shim/", "rt/", "explore/"} {
-			if strings.HasPrefix(rel, d) {
-				return true
-			}
-		}
-		return false
-	})
+	}
 	return hex.EncodeToString(h.Sum(nil))[:16]
 }
 
@@ -143,8 +147,8 @@ func Setup() *Env {
 		if ents, err := os.ReadDir(filepath.Join(VerifRoot, "work")); err == nil {
 			for _, en := range ents {
 				if en.IsDir() && en.Name() != e.Hash && !strings.HasPrefix(en.Name(), "keep-") {
-					// only prune directories not touched in the last 2 minutes by a concurrent check
-					if info, err := en.Info(); err == nil && time.Since(info.ModTime()) > 2*time.Minute {
+					// only prune directories not touched for 90 minutes (a concurrent check on another tree may be using them)
+					if info, err := en.Info(); err == nil && time.Since(info.ModTime()) > 90*time.Minute {
 						_ = os.RemoveAll(filepath.Join(VerifRoot, "work", en.Name()))
 					}
 				}
@@ -155,7 +159,7 @@ func Setup() *Env {
 		unlock := e.Lock("build-cli")
 		if _, err := os.Stat(e.Kessoku); err != nil {
 			tmp := e.Kessoku + fmt.Sprintf(".tmp%d", os.Getpid())
-			cmd := exec.Command("go", "build", "-buildvcs=false", "-o", tmp, "./cmd/kessoku")
+			cmd := exec.Command(GoBin, "build", "-buildvcs=false", "-o", tmp, "./cmd/kessoku")
 			cmd.Dir = RepoDir()
 			cmd.Env = RepoGoEnv()
 			out, err := cmd.CombinedOutput()
@@ -206,7 +210,7 @@ func (e *Env) Lock(name string) func() {
 
 // RunGo runs the go tool in dir (outside /repo's workspace).
 func RunGo(dir string, args ...string) ([]byte, error) {
-	cmd := exec.Command("go", args...)
+	cmd := exec.Command(GoBin, args...)
 	cmd.Dir = dir
 	cmd.Env = GoEnv()
 	var buf bytes.Buffer
